@@ -516,3 +516,8 @@ CHECKS["C10"]["theorems"] += [RX + n for n in ["C10_start_marks_reset", "C10_sta
                                                 "C10_nested_dfs_skips_perm_start", "C10_nested_propagation_from_perm_runs_nothing", "C10_batch_nested_write_example", "C10_batch_nested_write_old"]]
 CHECKS["C04"]["classes"] = CHECKS["C04"]["classes"] + ["zombie-run"]
 CHECKS["C11"]["classes"] = CHECKS["C11"]["classes"] + ["zombie-run"]
+
+# --- repair D22 (a re-run stops when a cleanup disposed the node)
+CHECKS["C11"]["lean_modules"] = CHECKS["C11"]["lean_modules"] + ["SycVerif.Props.C11Repairs"]
+CHECKS["C11"]["theorems"] += [RX + n for n in ["runNodeUpdate_eq_prefix_tail", "runNodeUpdate_eq_old", "C11_rerun_stops_eq", "C11_rerun_stops_when_disposed",
+                                                "C11_rerun_stops_when_disposed_reachable", "C11_rerun_owner_disposed_example", "C11_rerun_owner_disposed_no_panic", "C11_old_rerun_panics"]]
